@@ -18,7 +18,9 @@ Expression level
 Statement level
   * `if c: x = True else: x = False` -> `x = c`, `if c: return True else: return False` -> `return c` (c boolean-typed)
   * `if c: return B else: return False` -> `return c and B` and the three dual forms (c boolean-typed: exact)
+  * `for t in it: if c: raise E` (E independent of t) -> `if any(c for t in it): raise E`; `not all(p ..)` == `any(not p ..)`
   * `for t in it: if c: return False` + `return X` -> `return all(not c for t in it) and X` (dually any/or): exact
+  * `try: B except E as e: raise e` (only re-raising handlers, no else / finally) -> B
   * a bare `return` in tail position of a function that returns no value is dropped; likewise `continue`
     in tail position of a loop body
   * `if not c: A else: B`                        ->  `if c: B else: A`
@@ -84,10 +86,23 @@ def _shape_key(e):
     return ast.dump(e, annotate_fields=False)
 
 
+def _quantifier(e):
+    """('all' | 'any', generator expression) for all(<genexp>) / any(<genexp>)"""
+    if isinstance(e, ast.Call) and isinstance(e.func, ast.Name) and e.func.id in ("all", "any") and len(e.args) == 1 and not e.keywords and isinstance(e.args[0], ast.GeneratorExp):
+        return e.func.id, e.args[0]
+    return None
+
+
 def negate(e):
     """an expression equivalent to `not e`, with the negation pushed inward"""
     if isinstance(e, ast.UnaryOp) and isinstance(e.op, ast.Not):
         return e.operand
+    q = _quantifier(e)
+    if q is not None:
+        # not all(p for ..) == any(not p for ..)
+        gen = q[1]
+        new_gen = _loc(ast.GeneratorExp(elt=negate(gen.elt), generators=gen.generators), gen)
+        return _loc(ast.Call(func=_loc(ast.Name(id="any" if q[0] == "all" else "all", ctx=ast.Load()), e.func), args=[new_gen], keywords=[]), e)
     if isinstance(e, ast.BoolOp):
         op = ast.Or() if isinstance(e.op, ast.And) else ast.And()
         return _loc(ast.BoolOp(op=op, values=[negate(v) for v in e.values]), e)
@@ -623,6 +638,7 @@ def canon_block(stmts):
         if q is not None:
             res = [q] + res[1:]
             continue
+        s = _raising_loop(s)
         if isinstance(s, ast.If) and not s.orelse and _exits(s.body) and res:
             s = _loc(ast.If(test=s.test, body=s.body, orelse=list(res)), s)
             res = [swap_if(s)]
@@ -953,16 +969,19 @@ def _polarity(t):
         x = todo.pop()
         if isinstance(x, ast.BoolOp):
             todo.extend(x.values)
+        elif _quantifier(x) is not None:
+            todo.append(_quantifier(x)[1].elt)
         elif isinstance(x, ast.UnaryOp) and isinstance(x.op, ast.Not):
             neg += 1
         elif isinstance(x, ast.Compare) and len(x.ops) == 1 and isinstance(x.ops[0], _NEGATIVE_OPS):
             neg += 1
-    return (neg, 1 if isinstance(t, ast.BoolOp) and isinstance(t.op, ast.Or) else 0)
+    disj = (isinstance(t, ast.BoolOp) and isinstance(t.op, ast.Or)) or (_quantifier(t) is not None and _quantifier(t)[0] == "any")
+    return (neg, 1 if disj else 0)
 
 
 def _negative(t):
     """the test is the 'negative' member of the pair (t, not t): with both arms present the positive one is kept"""
-    if not isinstance(t, (ast.UnaryOp, ast.Compare, ast.BoolOp)):
+    if not isinstance(t, (ast.UnaryOp, ast.Compare, ast.BoolOp)) and _quantifier(t) is None:
         return False
     other = ExprCanon().visit(ast.fix_missing_locations(negate(copy.deepcopy(t))))
     return _polarity(other) < _polarity(t)
@@ -984,6 +1003,23 @@ def _quantifier_loop(s, res):
     q = _loc(ast.Call(func=_loc(ast.Name(id="any" if found else "all", ctx=ast.Load()), s), args=[_loc(ast.GeneratorExp(elt=cond, generators=[gen]), s)], keywords=[]), s)
     val = _loc(ast.BoolOp(op=ast.Or() if found else ast.And(), values=[q, res[0].value]), s)
     return ast.fix_missing_locations(_loc(ast.Return(value=_simplify_bool(val)), s))
+
+
+def _raising_loop(s):
+    """`for t in it: if c: raise E` (E independent of t)  ->  `if any(c for t in it): raise E`"""
+    if not (isinstance(s, ast.For) and not s.orelse and len(s.body) == 1):
+        return s
+    inner = s.body[0]
+    if not (isinstance(inner, ast.If) and not inner.orelse and len(inner.body) == 1 and isinstance(inner.body[0], ast.Raise)):
+        return s
+    tnames = {n.id for n in ast.walk(s.target) if isinstance(n, ast.Name)}
+    if any(isinstance(n, ast.Name) and n.id in tnames for n in ast.walk(inner.body[0])):
+        return s
+    if any(isinstance(n, (ast.Yield, ast.YieldFrom, ast.Await, ast.NamedExpr)) for n in ast.walk(s)):
+        return s
+    gen = ast.comprehension(target=s.target, iter=s.iter, ifs=[], is_async=0)
+    test = _loc(ast.Call(func=_loc(ast.Name(id="any", ctx=ast.Load()), s), args=[_loc(ast.GeneratorExp(elt=inner.test, generators=[gen]), s)], keywords=[]), s)
+    return ast.fix_missing_locations(_loc(ast.If(test=test, body=inner.body, orelse=[]), s))
 
 
 def _merge_nested_if(s):
@@ -1070,6 +1106,14 @@ def canon_stmt(s):
             h.body = canon_block(h.body)
         s.orelse = canon_block(s.orelse)
         s.finalbody = canon_block(s.finalbody)
+        # `except E [as e]: raise [e]` changes nothing (but the traceback): a try with only such handlers is its body
+        def _noop(h):
+            if len(h.body) != 1 or not isinstance(h.body[0], ast.Raise) or h.body[0].cause is not None:
+                return False
+            exc = h.body[0].exc
+            return exc is None or (isinstance(exc, ast.Name) and h.name is not None and exc.id == h.name)
+        if s.handlers and all(_noop(h) for h in s.handlers) and not s.orelse and not s.finalbody:
+            return _loc(ast.If(test=_loc(ast.Constant(value=True), s), body=s.body, orelse=[]), s) if len(s.body) != 1 else s.body[0]
     return s
 
 
